@@ -3,7 +3,7 @@
 # so that the seeded runs neither disturb nor are disturbed by builds going on in /verif (shared harness target dirs).
 # The copy is refreshed (rsync, build outputs included, work/ excluded) before the batch; output of each run: 3 lines.
 set -u
-V=/root/work/vcopy
+V=${SEED_VCOPY:-/root/work/vcopy}
 mkdir -p $V
 if [ -z "${SEED_NOSYNC:-}" ]; then rsync -a --delete --exclude /work --exclude /.git /verif/ $V/; fi
 mkdir -p $V/work; echo "SYNCED $(date +%T)"
